@@ -45,7 +45,7 @@ TECHNIQUE = 'runtime monitoring: metamorphic oracle (equivalent schema arrangeme
 
 XS = 'http://www.w3.org/2001/XMLSchema'
 PROLOG = ('include', 'import', 'redefine', 'override')
-TRANSFORMS = ('permute', 'split2', 'split3', 'respell', 'imports_reordered', 'composition_reordered', 'rebuild', 'copy', 'pickle')
+TRANSFORMS = ('permute', 'split2', 'split3', 'respell', 'respell:absolute_dotted', 'respell:file_dotted', 'imports_reordered', 'composition_reordered', 'rebuild', 'copy', 'pickle')
 
 
 def plan(tier, seed):
@@ -159,7 +159,7 @@ def rewrite(data, rng, how):
     raise ValueError(how)
 
 
-def respell(data, rng, directory):
+def respell(data, rng, directory, forced=None):
     """Re-spell every schemaLocation of a schema document that points to an existing relative file."""
     import re
     changed = [False]
@@ -169,13 +169,19 @@ def respell(data, rng, directory):
         if '://' in loc or loc.startswith('/') or not os.path.isfile(os.path.join(directory, loc)):
             return m.group(0)
         absolute = os.path.join(directory, loc)
-        choice = rng.choice(('dot', 'dotdot', 'absolute', 'file', 'pct'))
+        choice = forced or rng.choice(('dot', 'dotdot', 'absolute', 'file', 'pct', 'absolute_dotted', 'file_dotted'))
+        base = os.path.basename(directory.rstrip('/'))
+        dotted = os.path.join(os.path.dirname(directory.rstrip('/')), base, '..', base, '.', loc)
         if choice == 'dot':
             new = './' + loc
         elif choice == 'dotdot':
             new = os.path.basename(directory) + '/../' + loc if False else './' + os.path.dirname(loc) + ('/' if os.path.dirname(loc) else '') + './' + os.path.basename(loc)
         elif choice == 'absolute':
             new = absolute
+        elif choice == 'absolute_dotted':
+            new = dotted
+        elif choice == 'file_dotted':
+            new = 'file://' + urllib.request.pathname2url(dotted)
         elif choice == 'file':
             new = 'file://' + urllib.request.pathname2url(absolute)
         else:
@@ -347,10 +353,10 @@ def check_schema(res, xmlschema, cls, src_path, probes, rng, label, version, rou
                     order_probe.begin()
                     alt = cls(alt_path)
                     order_probe.end(res)
-                elif how == 'respell':
-                    new = respell(data, rng, directory)
+                elif how.startswith('respell'):
+                    new = respell(data, rng, directory, how.partition(':')[2] or None)
                     if new is None:
-                        res.count('skip:respell:not_applicable')
+                        res.count(f'skip:{how}:not_applicable')
                         continue
                     with open(alt_path, 'wb') as f:
                         f.write(new)
@@ -497,6 +503,7 @@ COMPOSE = {
   <xs:import namespace="urn:c:a" schemaLocation="a.xsd"/>
   <xs:import namespace="urn:c:b" schemaLocation="sub/b.xsd"/>
   <xs:include schemaLocation="inc.xsd"/>
+  <xs:include schemaLocation="sub/inc2.xsd"/>
   <xs:element name="doc" type="m:Doc">
     <xs:key name="k"><xs:selector xpath="m:item"/><xs:field xpath="@id"/></xs:key>
     <xs:keyref name="r" refer="m:k"><xs:selector xpath="m:ref"/><xs:field xpath="@to"/></xs:keyref>
@@ -524,6 +531,11 @@ COMPOSE = {
     'inc.xsd': f'''<xs:schema xmlns:xs="{XS}" targetNamespace="urn:c:main" xmlns:m="urn:c:main" elementFormDefault="qualified">
   <xs:complexType name="Item"><xs:attribute name="id" type="m:Small" use="required"/></xs:complexType>
   <xs:complexType name="Ref"><xs:attribute name="to" type="m:Small" use="required"/></xs:complexType>
+</xs:schema>''',
+    # (inc.xsd is reached by two routes: from main.xsd and from sub/inc2.xsd)
+    'sub/inc2.xsd': f'''<xs:schema xmlns:xs="{XS}" targetNamespace="urn:c:main" xmlns:m="urn:c:main" elementFormDefault="qualified">
+  <xs:include schemaLocation="../inc.xsd"/>
+  <xs:complexType name="Pair"><xs:sequence><xs:element name="i" type="m:Item"/><xs:element name="r" type="m:Ref"/></xs:sequence></xs:complexType>
 </xs:schema>''',
     'a.xsd': f'''<xs:schema xmlns:xs="{XS}" targetNamespace="urn:c:a" xmlns:b="urn:c:b">
   <xs:import namespace="urn:c:b" schemaLocation="sub/b.xsd"/>
